@@ -12,21 +12,21 @@ P["C05"] = {"assumptions": [ADUR, ATL, A["KANI"]], "trusted_base": TB_K, "not_de
 P["C06"] = {"assumptions": [ADUR, ATL, A["KANI"]], "trusted_base": TB_K,
             "not_decided": ["'within float rounding' for inexact step splits: no contract bounds the sensitivity of an arbitrary eased timeline to a 1 ns perturbation; advance(a);advance(b)==advance(a+b) is decided only through: time accumulates exactly (Duration add) and values are a function of the accumulated time (advance_contract)"]}
 P["C07"] = {"assumptions": [ADUR, ATL, A["A1"], A["KANI"]], "trusted_base": TB_K,
-            "not_decided": ["agreement of TimeScale::get_duration with the terminal test is proved for delay+span exact (class of f32 absorption excluded, see DESIGN.md section 4 C07)"]}
+            "not_decided": ["that real (generated) timelines meet the abstract contract TL used here - in particular 'terminal values for every t >= duration()' - is the business of C03's contracts (ts_lemma_duration_agrees_*: proved for every configuration since the fix of the end-instant defect, DESIGN.md 8.14) and of the native Bevy/derive searches, not of this check's harnesses"]}
 P["C08"] = {"assumptions": [A["KANI"], A["A5"], "generated update assigns a field only if value_at returns Some (C17 harnesses)"], "trusted_base": TB_V + TB_K, "not_decided": []}
 P["C10"] = {"assumptions": [A["A1"], A["KANI"], A["FLOAT"]], "trusted_base": TB_V + TB_K, "not_decided": []}
 P["C11"] = {"assumptions": [A["KANI"]], "trusted_base": TB_K, "not_decided": ["bounded: 0..5, 7, 8 (and 9 in the thorough tier) keyframes (std sort executed with unwinding assertions); positions fully symbolic. Downstream, sorted distinct positions determine everything (C01 contracts take the sorted list)"]}
 P["C12"] = {"assumptions": [ATL, A["KANI"], "V-R7: MergedTimeline::update is verified as an inherent method against a Verus-side declaration of the Timeline trait (update only); a component is ANY implementation of update"], "trusted_base": TB_K + ["Verus 0.2026.09.13 / Z3"],
             "not_decided": ["update (ordered overlay) is proved for every number of components (Verus); start_with, delay, duration, repeat, cycle_duration, clone use iter_mut / iterator adapters that Verus does not accept: bounded, 0..5 components"]}
 P["C13"] = {"assumptions": [A["KANI"], A["FLOAT"], "lyon_geom's Bezier polynomial is executed, not assumed"], "trusted_base": TB_K,
-            "not_decided": ["range [0,1] for OutSine, OutQuad, OutCubic, OutQuart, OutQuint, OutExpo (no result in 900-1500 s with Kissat); the other 20 non-Back curves are proved (8 in the quick tier, 12 in the thorough tier)", "monotonicity and In/Out point-mirror: harnesses were written (a(x)+b(1-x)=1 within 1e-5 for 6 pairs; calc(x)<=calc(y)+1e-6 for x<=y for 3 curves) and did not return within 1200 s each with Kissat, so they are not registered"]}
+            "not_decided": ["deductively: range [0,1] for OutSine, OutQuad, OutCubic, OutQuart, OutQuint, OutExpo (no result in 900-1500 s with Kissat; the other 20 non-Back curves are proved, 8 in the quick tier, 12 in the thorough tier), monotonicity and In/Out point-mirror (harnesses did not return within 1200 s). These three sentences are instead decided in the thorough tier by evaluating the real Easing::calc at EVERY f32 in [0,1] (native_easing_exhaustive: complete by enumeration, tolerance 4*f32::EPSILON for 'to float rounding'); not a deductive proof and listed with the bounded groups"]}
 P["C14"] = {"assumptions": [A["KANI"], A["FLOAT"]], "trusted_base": TB_K,
             "not_decided": ["betweenness / same-value / nearest for 16..64-bit integer types and f32/f64 over all f32 x (two symbolic float products: no result in 600 s with cadical, kissat or cvc5); 8-bit types are proved for all x in the thorough tier", "monotonicity in x", "glam: Vec3A, Vec4, Quat, DQuat (SIMD-backed / delegating to glam's own lerp) are not covered; the other 17 vector types are proved component-wise"]}
 P["C20"] = {"assumptions": [A["A1"], A["KANI"], A["FLOAT"]], "trusted_base": TB_K + TB_V,
             "not_decided": ["debug == release: every proof runs with overflow checks on (debug semantics) and shows no overflow, so both profiles compute the same; native replays run in the debug profile only", "Easing::Custom and Back-family overshoot beyond an integer type's range (documented panic)"]}
 A6T = "A6: Bevy's ECS (queries, Changed<> filtering, system ordering .before(animate), event buffering, Time) is replaced by shims; the per-entity loop bodies of animate/select_animation/chain_animations are extracted byte-for-byte each run (tools/extract_bevy.py) with the loop header turned into a function header and `continue` into `return`"
 P["C18"] = {"assumptions": [A6T, "A4' Duration::as_secs_f32 abstracted as a monotone function", A["KANI"]], "trusted_base": TB_K + ["shims in contracts/kani/bevy/shim.rs"],
-            "not_decided": ["multi-frame sentences (Ended no later than one frame after the position reaches the duration; exactly one Ended per run) follow from the one-step contract by induction over frames (state monotone, Ended absorbing, Ended <=> pos >= duration at the step) - argued in DESIGN.md, not machine-checked", "that Bevy runs the system once per frame with the real Time; plugin registration (bevy/src/lib.rs:139-146)"]}
+            "not_decided": ["multi-frame sentences (Ended no later than one frame after the position reaches the duration; exactly one Ended per run) follow from the one-step contract by induction over frames (state monotone, Ended absorbing, Ended <=> pos >= duration at the step) - argued in DESIGN.md, not machine-checked; additionally exercised (bounded) by native_bevy_frames_search: the extracted loop body over up to 4000 frames with real timelines and real Duration arithmetic", "that Bevy runs the system once per frame with the real Time; plugin registration (bevy/src/lib.rs:139-146)"]}
 P["C19"] = {"assumptions": [A6T, A["KANI"]], "trusted_base": TB_K + ["shims in contracts/kani/bevy/shim.rs"],
             "not_decided": ["'the chain never fires when some OTHER animator on the entity ended': AnimationStateChanged carries no component type, so chain_animations::<K,T> cannot tell; with the one-animator-per-entity shim this cannot be expressed - recorded as known finding C19-event-has-no-component-type (DESIGN.md), demonstrated by reading the event type, not by a harness",
                             "Changed<> filtering, .before(animate) ordering, event buffering across frames (A6)"]}
@@ -51,6 +51,9 @@ for pid, why in (("C15", "bounded over sentences: timeline! is compared with the
 P["C11"]["native"] = ["native_builder_search"]
 P["C17"]["native"] = ["native_derive_search", "native_builder_stable_search"]
 P["C12"]["native"] = ["native_merged_search"]
+P["C18"]["native"] = ["native_bevy_frames_search"]
+P["C07"]["native"] = ["native_bevy_frames_search"]
+P["C13"]["native_thorough"] = ["native_easing_exhaustive"]
 P["C06"]["native"] = ["native_dur_search"]
 P["C01"]["native"] = ["native_prepare_search", "native_builder_stable_search"]
 P["C10"]["native"] = ["native_prepare_search"]
